@@ -792,7 +792,8 @@ class Not(Logical, Prefix):
 
     @property
     def factors(self: 'Not') -> 'dsl.Predicate.Factors':
-        return self.operand.factors
+        # the negation of a conjunction of factors is not a conjunction of negated factors: a factor only as a whole
+        return Predicate.Factors(self) if len({f.origin for f in Element.dissect(self)}) == 1 and Column.dissect(self) else Predicate.Factors()
 
 
 class Comparison(Predicate):
